@@ -21,7 +21,7 @@ PROPS = {
         level_text="Exploration: thousands of generated record sequences x partitions x page sizes x codecs through code regenerated from the "
                    "working tree's templates; holds on everything explored, no proof of absence.",
         level_note="Trusted: Go toolchain, rapid, the harness's reflection bridge (vt). Bounds: <=150 records/case, lists <=700, strings <=300 bytes, fixtures flat24/nest/tiny.",
-        fixtures=["flat24", "nest", "tiny", "rep3"],
+        fixtures=["flat24", "nest", "tiny", "rep3", "big"],
         gen_anchored=True,
         stages=[dict(test="TestC01", kind="rapid", quick=2400, thorough=48000)],
         replay="TestReplayC01",
@@ -40,7 +40,7 @@ PROPS = {
                    "judged by a parser written from the format specification that accounts for every byte. No proof of absence.",
         level_note="Trusted: pqref (independent thrift compact + Parquet walker), golang/snappy and compress/gzip for decompression. "
                    "Not demanded: ColumnMetaData.encodings content, created_by, statistics content (C12).",
-        fixtures=["flat24", "nest", "tiny", "deep", "samename", "rep3"],
+        fixtures=["flat24", "nest", "tiny", "deep", "samename", "rep3", "collide", "big"],
         gen_anchored=True,
         stages=[dict(test="TestC02", kind="rapid", quick=2400, thorough=48000)],
         replay="TestReplayC02",
@@ -94,7 +94,7 @@ PROPS = {
         level_text="Exploration: for generated valid files the three introspection calls are compared field by field with what an independent "
                    "thrift decoder and page walker find in the same bytes.",
         level_note="Trusted: pqref. The library's thrift schema predates RowGroup fields 5..7, which are therefore not compared.",
-        fixtures=["flat24", "nest", "tiny", "deep", "samename", "rep3"],
+        fixtures=["flat24", "nest", "tiny", "deep", "samename", "rep3", "big"],
         gen_anchored=False,
         stages=[dict(test="TestC16", kind="rapid", quick=2400, thorough=48000), dict(test="TestC16Foreign", kind="rapid", quick=1600, thorough=32000)],
         replay="TestReplayC16",
@@ -108,7 +108,7 @@ PROPS = {
         technique="property-based testing (rapid): metamorphic relation - same file through a fragmenting io.ReadSeeker must read identically to bytes.Reader",
         level_text="Exploration: generated valid files x generated read-fragmentation patterns allowed by the io.Reader contract; oracle is equality with the unfragmented read.",
         level_note="Trusted: the harness's fragmenting reader (never returns (0,nil) for a non-empty buffer, is not an io.ByteReader).",
-        fixtures=["flat24", "nest", "tiny"],
+        fixtures=["flat24", "nest", "tiny", "big"],
         gen_anchored=True,
         stages=[dict(test="TestC08", kind="rapid", quick=2400, thorough=48000)],
         replay="TestReplayC08",
@@ -262,7 +262,7 @@ PROPS["C13"] = dict(
                "(c) 48 instances run on free goroutines in a -race build. Every instance's output must equal its solo reference; two solo runs must be identical; the race detector must stay silent.",
     level_note="Trusted: Go's race detector; the harness schedules. Limits: preemption points inside an API call other than sink writes are only sampled by engine (c); sync.Pool's per-P caches make "
                "cross-goroutine buffer hand-over rare, which is why engines (a)/(b) run everything on one goroutine where pool reuse is certain.",
-    fixtures=["tiny", "flat24", "nest"],
+    fixtures=["tiny", "flat24", "nest", "twin1", "twin2"],
     gen_anchored=True,
     race_bin=True,
     stages=[dict(test="TestC13", kind="rapid", quick=1600, thorough=32000),
